@@ -6,11 +6,27 @@ import exec_gen as G
 import sem_gen as SG
 
 
-def enumerate_chains(pid, tier, family, maxlen, invariants, keep):
+def enumerate_chains(pid, tier, family, maxlen, invariants, keep, simulate=None):
+    """exhaustive up to maxlen, or (simulate=(num, depth)) random walks through the graph of well-typed chains"""
     wd = C.workdir(pid, "tlc")
     cfg = (f'SPECIFICATION Spec\nCONSTANTS Family = "{family}" Tier = "{tier}" MaxLen = {maxlen}\n'
            f'INVARIANTS {" ".join(invariants)} EmitChain\nCHECK_DEADLOCK FALSE\n')
-    rc, text = C.tlc("JoinSem", cfg, wd, f"sem_{family}", workers=8, timeout=3000)
+    tag = f"sem_{family}" + ("_sim" if simulate else "")
+    extra = ["-simulate", f"num={simulate[0]}", "-depth", str(simulate[1]), "-seed", str(C.seed())] if simulate else None
+    rc, text = C.tlc("JoinSem", cfg, wd, tag, workers=8 if not simulate else 4, timeout=3000, extra=extra)
+    if simulate:
+        v = C.tlc_violation(text)
+        seen = {}
+        for c in C.tagged_lines(text, "CHAIN"):
+            if keep(c):
+                seen.setdefault(json.dumps([c["start"], c["items"]], sort_keys=True), c)
+        import random
+        chains = sorted(seen.values(), key=lambda c: json.dumps([c["start"], c["items"]], sort_keys=True))
+        random.Random(C.seed()).shuffle(chains)
+        chains = chains[:simulate[2] if len(simulate) > 2 else 5000]
+        with open(os.path.join(wd, tag + ".out"), "w") as f:
+            f.write(f"{len(chains)} distinct chains from {simulate[0]} random walks of depth {simulate[1]}; violated={v}\n")
+        return chains, len(chains), len(chains), v, f"tlc -simulate num={simulate[0]} -depth {simulate[1]} -seed {C.seed()} -config {tag}.cfg JoinSem.tla (Family={family}, MaxLen={maxlen})"
     v = C.tlc_violation(text)
     if v is None and not C.tlc_ok(text):
         raise C.ToolError(f"TLC failed on JoinSem family {family}: {wd}/sem_{family}.out\n" + text[-1500:])
